@@ -58,6 +58,7 @@ def dag_designs():
             if variant >= 3:
                 Top.arr = 2 * Leaf()(p=Top.bb.y, q=h.NoConn())
                 Top.y = BLeaf(bp=h.AnonymousBundle(x=Top.bb.x, y=Top.bb.y), o=h.NoConn())
+                Top.z = BLeaf(bp=h.NoConn(), o=h.NoConn())
             return Top, [Leaf, BLeaf, Mid]
         return b
     for v in range(4):
@@ -152,6 +153,8 @@ def check_misc(case, refs):
     P.x = BLeaf(bp=P.b, o=P.t)
     P.y = BLeaf(bp=h.AnonymousBundle(x=P.t, y=P.s), o=P.x.o)
     P.m = Mid(b=P.b, w=h.NoConn())
+    P.z = BLeaf(bp=h.NoConn(), o=h.NoConn())          # bundle-valued port of an elaborated child left unconnected
+    P.m2 = Mid(b=h.NoConn(), w=P.t)
     try:
         pk = h.to_proto(P)
     except Exception as e:
@@ -172,6 +175,8 @@ def check_misc(case, refs):
     Q.x = B2(bp=Q.b, o=Q.t)
     Q.y = B2(bp=h.AnonymousBundle(x=Q.t, y=Q.s), o=Q.x.o)
     Q.m = M2(b=Q.b, w=h.NoConn())
+    Q.z = B2(bp=h.NoConn(), o=h.NoConn())
+    Q.m2 = M2(b=h.NoConn(), w=Q.t)
     if h.to_proto(Q).SerializeToString(deterministic=True) != pk.SerializeToString(deterministic=True):
         return ("late-parent.differs", f"{desc}: parent over already-elaborated children exports differently from the "
                                        f"same parent over fresh children", {"design": desc, "history": "misc"})
